@@ -47,6 +47,6 @@ def handle (j : Json) : Except String Json := do
       ("gen", resJ shapeJ g),
       ("runs", .arr (states.map fun s => resJ ratsJ (genRun bad c L free s.1 s.2.1 s.2.2)).toArray)]
   let spec := states.map fun s => resJ ratsJ (callRhs (setPars c free s.2.2) s.1 s.2.1)
-  pure (Json.mkObj [("langs", .arr perLang.toArray), ("spec", .arr spec.toArray)])
+  pure (Json.mkObj [("langs", .arr perLang.toArray), ("spec", .arr spec.toArray), ("okC", .bool (okC c))])
 
 end Driver.H_c07
